@@ -7,6 +7,9 @@
    that key or agent, and nothing when none is stored."   For every history of additions,
    removals, disconnects and cleanups.
 
+  Everything is proved for every `S : Str`, i.e. whatever `strings.ToLower` / `strings.TrimSpace`
+  do: "case-insensitively" is "equal after `S.fold`".  No ASCII hypothesis is needed.
+
   Model: MM/Model/C09.lean (instances of the generic table of MM/Model/C08.lean).
 -/
 import MM.Lemmas.C09
@@ -17,13 +20,13 @@ open MM MM.C08
 /-- When a stored domain route applies to a name (both compared lower-cased):
     an exact route when its pattern is the name; a wildcard route `*.base` when the name is
     exactly one non-empty, dot-free label in front of `.base`. -/
-def Matches (p : DomPay) (d : Bytes) : Prop :=
+def Matches (S : Str) (p : DomPay) (d : Bytes) : Prop :=
   if p.isWild then
-    ∃ l, lower d = l ++ dot :: lower p.base ∧ dot ∉ l ∧ l ≠ [] ∧ lower p.base ≠ []
-  else lower p.pattern = lower d
+    ∃ l, S.fold d = l ++ dot :: S.fold p.base ∧ dot ∉ l ∧ l ≠ [] ∧ S.fold p.base ≠ []
+  else S.fold p.pattern = S.fold d
 
 /-- `matchesB` (used by the checker's `spec` mode) decides `Matches`. -/
-theorem matchesB_iff (p : DomPay) (d : Bytes) : matchesB p d = true ↔ Matches p d := by
+theorem matchesB_iff (S : Str) (p : DomPay) (d : Bytes) : matchesB S p d = true ↔ Matches S p d := by
   unfold matchesB Matches
   cases hw : p.isWild with
   | false => simp
@@ -31,7 +34,7 @@ theorem matchesB_iff (p : DomPay) (d : Bytes) : matchesB p d = true ↔ Matches 
     simp only [if_true]
     constructor
     · intro h
-      cases hs : splitDot (lower d) with
+      cases hs : splitDot (S.fold d) with
       | none => rw [hs] at h; cases h
       | some lb =>
         obtain ⟨l, b⟩ := lb
@@ -45,17 +48,17 @@ theorem matchesB_iff (p : DomPay) (d : Bytes) : matchesB p d = true ↔ Matches 
       simp [hl, hb]
 
 /-- The property for one domain table, one name and one answer. -/
-def DomBest (t : DTable) (d : Bytes) : Option (Entry DomPay) → Prop
-  | some r => r ∈ routes t ∧ Matches r.pay d ∧
+def DomBest (S : Str) (t : DTable) (d : Bytes) : Option (Entry DomPay) → Prop
+  | some r => r ∈ routes t ∧ Matches S r.pay d ∧
       -- exact before wildcard
-      (r.pay.isWild = true → ∀ r' ∈ routes t, r'.pay.isWild = false → ¬ Matches r'.pay d) ∧
+      (r.pay.isWild = true → ∀ r' ∈ routes t, r'.pay.isWild = false → ¬ Matches S r'.pay d) ∧
       -- lowest metric among the applicable routes of the chosen kind (= of the chosen pattern)
-      (∀ r' ∈ routes t, Matches r'.pay d → r'.pay.isWild = r.pay.isWild → r.metric ≤ r'.metric)
-  | none => ∀ r' ∈ routes t, ¬ Matches r'.pay d
+      (∀ r' ∈ routes t, Matches S r'.pay d → r'.pay.isWild = r.pay.isWild → r.metric ≤ r'.metric)
+  | none => ∀ r' ∈ routes t, ¬ Matches S r'.pay d
 
 def C09_statement : Prop :=
-  (∀ (self : Nat) (ops : List (Op DKey DomPay)) (d : Bytes),
-      DomBest (run domCfg self ops).tab d (domLookup (run domCfg self ops).tab d)) ∧
+  (∀ (S : Str) (self : Nat) (ops : List (Op DKey DomPay)) (d : Bytes),
+      DomBest S (run (domCfg S) self ops).tab d (domLookup S (run (domCfg S) self ops).tab d)) ∧
   (∀ (self : Nat) (ops : List (Op Bytes FwdPay)) (k : Bytes),
       KeyBest fwdCfg (run fwdCfg self ops).tab k (fwdLookup (run fwdCfg self ops).tab k)) ∧
   (∀ (self : Nat) (ops : List (Op Nat Nat)) (a : Nat),
@@ -63,8 +66,8 @@ def C09_statement : Prop :=
 
 /-! ### invariants for every history -/
 
-theorem C09_inv_domain (self : Nat) (ops : List (Op DKey DomPay)) :
-    WF domCfg self (run domCfg self ops).tab := WF_run _ _ _
+theorem C09_inv_domain (S : Str) (self : Nat) (ops : List (Op DKey DomPay)) :
+    WF (domCfg S) self (run (domCfg S) self ops).tab := WF_run _ _ _
 theorem C09_inv_forward (self : Nat) (ops : List (Op Bytes FwdPay)) :
     WF fwdCfg self (run fwdCfg self ops).tab := WF_run _ _ _
 theorem C09_inv_agent (self : Nat) (ops : List (Op Nat Nat)) :
@@ -72,23 +75,23 @@ theorem C09_inv_agent (self : Nat) (ops : List (Op Nat Nat)) :
 
 /-! ### domain lookup -/
 
-private theorem key_exact {p : DomPay} {d : Bytes} (h : domKey p = (false, d)) :
-    p.isWild = false ∧ lower p.pattern = d := by
+private theorem key_exact {S : Str} {p : DomPay} {d : Bytes} (h : domKey S p = (false, d)) :
+    p.isWild = false ∧ S.fold p.pattern = d := by
   unfold domKey at h
   cases hw : p.isWild with
   | true => rw [hw] at h; simp at h
   | false => rw [hw] at h; simp at h; exact ⟨rfl, h⟩
 
-private theorem key_wild {p : DomPay} {b : Bytes} (h : domKey p = (true, b)) :
-    p.isWild = true ∧ lower p.base = b := by
+private theorem key_wild {S : Str} {p : DomPay} {b : Bytes} (h : domKey S p = (true, b)) :
+    p.isWild = true ∧ S.fold p.base = b := by
   unfold domKey at h
   cases hw : p.isWild with
   | true => rw [hw] at h; simp at h; exact ⟨rfl, h⟩
   | false => rw [hw] at h; simp at h
 
 /-- a matching wildcard route pins down the split of the name at its first dot -/
-private theorem wild_split {p : DomPay} {d : Bytes} (hw : p.isWild = true) (hm : Matches p d) :
-    ∃ l, splitDot (lower d) = some (l, lower p.base) ∧ l ≠ [] ∧ lower p.base ≠ [] := by
+private theorem wild_split {S : Str} {p : DomPay} {d : Bytes} (hw : p.isWild = true) (hm : Matches S p d) :
+    ∃ l, splitDot (S.fold d) = some (l, S.fold p.base) ∧ l ≠ [] ∧ S.fold p.base ≠ [] := by
   unfold Matches at hm
   rw [if_pos hw] at hm
   obtain ⟨l, he, hd, hl, hb⟩ := hm
@@ -96,24 +99,24 @@ private theorem wild_split {p : DomPay} {d : Bytes} (hw : p.isWild = true) (hm :
 
 /-- **Domain lookup**: exact (case-insensitive) before wildcard; a wildcard only for exactly one
     extra label; lowest metric within the chosen pattern; nothing iff nothing applies. -/
-theorem C09_domain_correct {self : Nat} {t : DTable} (hwf : WF domCfg self t) (d : Bytes) :
-    DomBest t d (domLookup t d) := by
+theorem C09_domain_correct {S : Str} {self : Nat} {t : DTable} (hwf : WF (domCfg S) self t) (d : Bytes) :
+    DomBest S t d (domLookup S t d) := by
   unfold domLookup
   dsimp only
-  cases hex : (get t (false, lower d)).head? with
+  cases hex : (get t (false, S.fold d)).head? with
   | some r =>
     -- exact hit
     dsimp only
-    have hrm : r ∈ get t (false, lower d) := List.mem_of_mem_head? hex
+    have hrm : r ∈ get t (false, S.fold d) := List.mem_of_mem_head? hex
     obtain ⟨hk, hr⟩ := hwf.of_get hrm
     obtain ⟨hw, hp⟩ := key_exact hk
-    have hne : get t (false, lower d) ≠ [] := by intro hn; rw [hn] at hrm; cases hrm
+    have hne : get t (false, S.fold d) ≠ [] := by intro hn; rw [hn] at hrm; cases hrm
     refine ⟨hr, ?_, ?_, ?_⟩
     · unfold Matches; rw [hw]; simpa using hp
     · intro h; rw [hw] at h; cases h
     · intro r' hr' hm' hw'
       rw [hw] at hw'
-      have hk' : domKey r'.pay = (false, lower d) := by
+      have hk' : domKey S r'.pay = (false, S.fold d) := by
         unfold Matches at hm'; rw [hw'] at hm'
         unfold domKey; rw [hw']; simpa using hm'
       have := hwf.mem_get hr'
@@ -122,20 +125,20 @@ theorem C09_domain_correct {self : Nat} {t : DTable} (hwf : WF domCfg self t) (d
       exact head_min (hwf.get_ok hne).sorted hex this
   | none =>
     dsimp only
-    have hnil : get t (false, lower d) = [] := List.head?_eq_none_iff.mp hex
+    have hnil : get t (false, S.fold d) = [] := List.head?_eq_none_iff.mp hex
     -- no exact route applies
-    have hnoexact : ∀ r' ∈ routes t, r'.pay.isWild = false → ¬ Matches r'.pay d := by
+    have hnoexact : ∀ r' ∈ routes t, r'.pay.isWild = false → ¬ Matches S r'.pay d := by
       intro r' hr' hw' hm'
-      have hk' : domKey r'.pay = (false, lower d) := by
+      have hk' : domKey S r'.pay = (false, S.fold d) := by
         unfold Matches at hm'; rw [hw'] at hm'
         unfold domKey; rw [hw']; simpa using hm'
       have := hwf.mem_get hr'
       simp only [domCfg] at this
       rw [hk', hnil] at this; cases this
     -- what a matching wildcard route forces
-    have hwild : ∀ r' ∈ routes t, r'.pay.isWild = true → Matches r'.pay d →
-        ∃ l, splitDot (lower d) = some (l, lower r'.pay.base) ∧ l ≠ [] ∧ lower r'.pay.base ≠ [] ∧
-          r' ∈ get t (true, lower r'.pay.base) := by
+    have hwild : ∀ r' ∈ routes t, r'.pay.isWild = true → Matches S r'.pay d →
+        ∃ l, splitDot (S.fold d) = some (l, S.fold r'.pay.base) ∧ l ≠ [] ∧ S.fold r'.pay.base ≠ [] ∧
+          r' ∈ get t (true, S.fold r'.pay.base) := by
       intro r' hr' hw' hm'
       obtain ⟨l, hs, hl, hb⟩ := wild_split hw' hm'
       refine ⟨l, hs, hl, hb, ?_⟩
@@ -143,13 +146,13 @@ theorem C09_domain_correct {self : Nat} {t : DTable} (hwf : WF domCfg self t) (d
       simp only [domCfg, domKey, hw', if_true] at this
       exact this
     have hnone : ∀ (res : Option (Entry DomPay)), res = none →
-        (∀ r' ∈ routes t, r'.pay.isWild = true → Matches r'.pay d → False) →
-        DomBest t d none := by
+        (∀ r' ∈ routes t, r'.pay.isWild = true → Matches S r'.pay d → False) →
+        DomBest S t d none := by
       intro _ _ hno r' hr' hm'
       cases hw' : r'.pay.isWild with
       | false => exact hnoexact r' hr' hw' hm'
       | true => exact hno r' hr' hw' hm'
-    cases hsp : splitDot (lower d) with
+    cases hsp : splitDot (S.fold d) with
     | none =>
       dsimp only
       refine hnone none rfl ?_
@@ -196,11 +199,11 @@ theorem C09_domain_correct {self : Nat} {t : DTable} (hwf : WF domCfg self t) (d
 
 /-- An exact pattern wins over any wildcard: if some stored exact route applies, the answer is
     an exact route for that name. -/
-theorem C09_exact_first {self : Nat} {t : DTable} (hwf : WF domCfg self t) (d : Bytes)
-    {e : Entry DomPay} (he : e ∈ routes t) (hw : e.pay.isWild = false) (hm : Matches e.pay d) :
-    ∃ r, domLookup t d = some r ∧ r.pay.isWild = false ∧ lower r.pay.pattern = lower d := by
+theorem C09_exact_first {S : Str} {self : Nat} {t : DTable} (hwf : WF (domCfg S) self t) (d : Bytes)
+    {e : Entry DomPay} (he : e ∈ routes t) (hw : e.pay.isWild = false) (hm : Matches S e.pay d) :
+    ∃ r, domLookup S t d = some r ∧ r.pay.isWild = false ∧ S.fold r.pay.pattern = S.fold d := by
   have h := C09_domain_correct hwf d
-  cases hl : domLookup t d with
+  cases hl : domLookup S t d with
   | none => rw [hl] at h; exact absurd hm (h e he)
   | some r =>
     rw [hl] at h
@@ -212,9 +215,9 @@ theorem C09_exact_first {self : Nat} {t : DTable} (hwf : WF domCfg self t) (d : 
       unfold Matches at hmr; rw [hwr] at hmr; simpa using hmr
 
 /-- A wildcard answer is exactly one label deep. -/
-theorem C09_wildcard_one_label {self : Nat} {t : DTable} (hwf : WF domCfg self t) (d : Bytes)
-    {r : Entry DomPay} (hl : domLookup t d = some r) (hw : r.pay.isWild = true) :
-    ∃ l, lower d = l ++ dot :: lower r.pay.base ∧ dot ∉ l ∧ l ≠ [] := by
+theorem C09_wildcard_one_label {S : Str} {self : Nat} {t : DTable} (hwf : WF (domCfg S) self t) (d : Bytes)
+    {r : Entry DomPay} (hl : domLookup S t d = some r) (hw : r.pay.isWild = true) :
+    ∃ l, S.fold d = l ++ dot :: S.fold r.pay.base ∧ dot ∉ l ∧ l ≠ [] := by
   have h := C09_domain_correct hwf d
   rw [hl] at h
   have hm := h.2.1
@@ -224,13 +227,13 @@ theorem C09_wildcard_one_label {self : Nat} {t : DTable} (hwf : WF domCfg self t
   exact ⟨l, h1, h2, h3⟩
 
 /-- Nothing is returned exactly when no stored route applies. -/
-theorem C09_domain_none_iff {self : Nat} {t : DTable} (hwf : WF domCfg self t) (d : Bytes) :
-    domLookup t d = none ↔ ∀ r ∈ routes t, ¬ Matches r.pay d := by
+theorem C09_domain_none_iff {S : Str} {self : Nat} {t : DTable} (hwf : WF (domCfg S) self t) (d : Bytes) :
+    domLookup S t d = none ↔ ∀ r ∈ routes t, ¬ Matches S r.pay d := by
   have h := C09_domain_correct hwf d
   constructor
   · intro hn; rw [hn] at h; exact h
   · intro hall
-    cases hl : domLookup t d with
+    cases hl : domLookup S t d with
     | none => rfl
     | some r => rw [hl] at h; exact absurd h.2.1 (hall r h.1)
 
@@ -245,27 +248,27 @@ theorem C09_agent_correct {self : Nat} {t : ATable} (hwf : WF agCfg self t) (a :
 
 /-- **C09 holds**: every history, every name / key / agent. -/
 theorem C09_holds : C09_statement :=
-  ⟨fun self ops d => C09_domain_correct (C09_inv_domain self ops) d,
+  ⟨fun S self ops d => C09_domain_correct (C09_inv_domain S self ops) d,
    fun self ops k => C09_forward_correct (C09_inv_forward self ops) k,
    fun self ops a => C09_agent_correct (C09_inv_agent self ops) a⟩
 
 /-! ### non-vacuity -/
 
 private def dent (pat : Bytes) (o m : Nat) : Entry DomPay :=
-  ⟨payOfPattern pat, o, o, m, 1, [o], 0⟩
+  ⟨payOfPattern asciiStr pat, o, o, m, 1, [o], 0⟩
 
 /-- exact beats wildcard whatever the metrics; case is ignored; two labels deep does not match.
     Table: `*.Ex.com` (metric 1), `API.ex.COM` (9), `*.ex.com` (0). -/
 example :
-    let t := (run domCfg 1 [.add (dent [42, 46, 69, 120, 46, 99, 111, 109] 2 1), .add (dent [65, 80, 73, 46, 101, 120, 46, 67, 79, 77] 3 9),
+    let t := (run (domCfg asciiStr) 1 [.add (dent [42, 46, 69, 120, 46, 99, 111, 109] 2 1), .add (dent [65, 80, 73, 46, 101, 120, 46, 67, 79, 77] 3 9),
                             .add (dent [42, 46, 101, 120, 46, 99, 111, 109] 4 0)]).tab
     -- api.EX.com → the exact route
-    (domLookup t [97, 112, 105, 46, 69, 88, 46, 99, 111, 109]).map (·.metric) = some 9 ∧
+    (domLookup asciiStr t [97, 112, 105, 46, 69, 88, 46, 99, 111, 109]).map (·.metric) = some 9 ∧
     -- www.ex.com → the cheapest wildcard
-    (domLookup t [119, 119, 119, 46, 101, 120, 46, 99, 111, 109]).map (·.metric) = some 0 ∧
+    (domLookup asciiStr t [119, 119, 119, 46, 101, 120, 46, 99, 111, 109]).map (·.metric) = some 0 ∧
     -- a.b.ex.com, ex.com, .ex.com → nothing
-    domLookup t [97, 46, 98, 46, 101, 120, 46, 99, 111, 109] = none ∧
-    domLookup t [101, 120, 46, 99, 111, 109] = none ∧
-    domLookup t [46, 101, 120, 46, 99, 111, 109] = none := by decide
+    domLookup asciiStr t [97, 46, 98, 46, 101, 120, 46, 99, 111, 109] = none ∧
+    domLookup asciiStr t [101, 120, 46, 99, 111, 109] = none ∧
+    domLookup asciiStr t [46, 101, 120, 46, 99, 111, 109] = none := by decide
 
 end MM.C09
